@@ -158,10 +158,34 @@ fn c11_hist_2d_matrix_k3() {
     hist_2d_matrix::<3, 6>(2);
 }
 
-/// Cheapest 2-D matrix form (quick tier): a fixed 2 x 1-bin grid, the rows of a 2x2 F-order matrix
+/// Matrix form on a 1-axis grid (quick tier; every 2-D grid costs > 30 min because of the
+/// dynamic-dimensional counts array): the rows of a K x 1 matrix are the observations, rejects are
+/// skipped, counts equal the tally.
+//@ prop=C11 tier=quick mem=6 timeout=1500 inst="Histogram<u8> over a fixed 3-bin 1-D grid; observations = rows of a 3x1 matrix through histogram()" bounds="3 symbolic rows; unwind 8"
+#[kani::proof]
+#[kani::unwind(8)]
+fn c11_hist_1d_matrix_k3() {
+    let pts: [u8; 3] = kani::any();
+    let m = Array2::from_shape_vec((3, 1), pts.to_vec()).unwrap();
+    let h = m.histogram(Grid::from(vec![Bins::new(Edges::from(EX.to_vec()))]));
+    let mut tally = [0usize; 3];
+    let mut k = 0;
+    while k < 3 {
+        if let Some(i) = bin_fixed(&EX, pts[k]) {
+            tally[i] += 1;
+        }
+        k += 1;
+    }
+    let counts = h.counts();
+    assert!(counts.ndim() == 1 && counts.shape()[0] == 3, "counts has the grid's shape");
+    assert!(counts[[0]] == tally[0] && counts[[1]] == tally[1] && counts[[2]] == tally[2], "count i == number of rows in bin i, rejected rows skipped");
+    kani::cover!(pts[0] == 10 && pts[1] == 40 && pts[2] == 39, "W: first edge accepted, last edge rejected");
+}
+
+/// Cheapest 2-D matrix form: a fixed 2 x 1-bin grid, the rows of a 2x2 F-order matrix
 /// through `histogram()`; cell (i0, 0) must count the rows whose x lies in x-bin i0 and whose y lies
 /// in the single y-bin (so rows, not memory chunks, are the observations).
-//@ prop=C11,C20:thorough tier=quick mem=8 timeout=1800 inst="Histogram<u8> over a fixed 2x1-bin grid; observations = rows of a 2x2 F-order matrix" bounds="2 symbolic rows; unwind 8"
+//@ prop=C11,C20 tier=thorough mem=8 timeout=5400 inst="Histogram<u8> over a fixed 2x1-bin grid; observations = rows of a 2x2 F-order matrix" bounds="2 symbolic rows; unwind 8"
 #[kani::proof]
 #[kani::unwind(8)]
 fn c11_hist_2d_matrix_small() {
